@@ -443,7 +443,11 @@ func (c *ctx) goStmt(g *ast.GoStmt) ast.Stmt {
 	}
 	body := &ast.ExprStmt{X: &ast.CallExpr{Fun: fun, Args: args, Ellipsis: call.Ellipsis}}
 	lit := &ast.FuncLit{Type: &ast.FuncType{Params: &ast.FieldList{}}, Body: &ast.BlockStmt{List: []ast.Stmt{body}}}
-	stmts = append(stmts, &ast.ExprStmt{X: rtCall("Go", c.site(g, "go"), lit)})
+	spawn := "Go"
+	if sel, ok := call.Fun.(*ast.SelectorExpr); ok && DaemonFuncs[sel.Sel.Name] {
+		spawn = "GoDaemon" // a service goroutine that never ends (log rotation): scheduled like the others, not counted as work in progress
+	}
+	stmts = append(stmts, &ast.ExprStmt{X: rtCall(spawn, c.site(g, "go"), lit)})
 	return &ast.BlockStmt{List: stmts}
 }
 
@@ -528,6 +532,23 @@ func (c *ctx) file(f *ast.File) {
 			return true
 		})
 	}
+	// slog handlers serialise their writes with a mutex of their own, which the
+	// scheduler cannot see: a goroutine parked inside the writer (a simulated disk,
+	// an emulated lock) would block the next logging goroutine outside the
+	// scheduler's view.  slog.New(h) becomes slog.New(rt.GateHandler(h)): the same
+	// serialisation, by a lock the scheduler emulates.
+	ast.Inspect(f, func(n ast.Node) bool {
+		call, ok := n.(*ast.CallExpr)
+		if !ok || len(call.Args) != 1 {
+			return true
+		}
+		if isPkgCall(call, "slog", "New") != nil {
+			call.Args[0] = rtCall("GateHandler", call.Args[0])
+			c.changed = true
+			c.counts["slog.New"]++
+		}
+		return true
+	})
 	if c.changed {
 		spec := &ast.ImportSpec{Name: ast.NewIdent(rtName), Path: &ast.BasicLit{Kind: token.STRING, Value: strconv.Quote(rtPath)}}
 		decl := &ast.GenDecl{Tok: token.IMPORT, Specs: []ast.Spec{spec}}
@@ -570,6 +591,190 @@ func namedChanTypes(files []*ast.File) map[string]bool {
 		}
 	}
 	return m
+}
+
+// ResetFile generates a test file for the package in dir with one function,
+// vsimReset, that puts the package's simple global variables (those declared
+// with a literal initialiser, and pointer variables declared without one) back
+// to their initial values.  A simulated run stands for one process; the flags
+// a program keeps in package variables must not leak from one run into the next.
+func ResetFile(dir, out string) (string, error) {
+	fset := token.NewFileSet()
+	ents, err := os.ReadDir(dir)
+	if err != nil {
+		return "", err
+	}
+	pkg := ""
+	var lines []string
+	for _, e := range ents {
+		n := e.Name()
+		if e.IsDir() || !strings.HasSuffix(n, ".go") || strings.HasSuffix(n, "_test.go") {
+			continue
+		}
+		raw, err := os.ReadFile(filepath.Join(dir, n))
+		if err != nil {
+			continue
+		}
+		f, err := parser.ParseFile(fset, filepath.Join(dir, n), raw, 0)
+		if err != nil {
+			continue
+		}
+		if pkg == "" {
+			pkg = f.Name.Name
+		}
+		head := string(raw[:fset.Position(f.Package).Offset])
+		if strings.Contains(head, "//go:build") || strings.Contains(head, "+build") || strings.Contains(n, "_windows") || strings.Contains(n, "_darwin") {
+			continue // may not be part of this build
+		}
+		for _, d := range f.Decls {
+			gd, ok := d.(*ast.GenDecl)
+			if !ok || gd.Tok != token.VAR {
+				continue
+			}
+			for _, sp := range gd.Specs {
+				vs := sp.(*ast.ValueSpec)
+				if len(vs.Values) == 0 {
+					if _, ok := vs.Type.(*ast.StarExpr); ok {
+						for _, nm := range vs.Names {
+							if nm.Name != "_" {
+								lines = append(lines, nm.Name+" = nil")
+							}
+						}
+					}
+					continue
+				}
+				if len(vs.Values) != len(vs.Names) {
+					continue
+				}
+				for i, v := range vs.Values {
+					lit := ""
+					switch x := v.(type) {
+					case *ast.BasicLit:
+						lit = x.Value
+					case *ast.Ident:
+						if x.Name == "true" || x.Name == "false" {
+							lit = x.Name
+						}
+					case *ast.UnaryExpr:
+						if b, ok := x.X.(*ast.BasicLit); ok && (x.Op == token.SUB || x.Op == token.ADD) {
+							lit = x.Op.String() + b.Value
+						}
+					}
+					if lit != "" && vs.Names[i].Name != "_" {
+						lines = append(lines, vs.Names[i].Name+" = "+lit)
+					}
+				}
+			}
+		}
+	}
+	if pkg == "" {
+		return "", fmt.Errorf("no package in %s", dir)
+	}
+	sort.Strings(lines)
+	src := "package " + pkg + "\n\nfunc vsimReset() {\n"
+	for _, l := range lines {
+		src += "\t" + l + "\n"
+	}
+	src += "}\n"
+	if err := os.MkdirAll(filepath.Dir(out), 0o755); err != nil {
+		return "", err
+	}
+	return src, os.WriteFile(out, []byte(src), 0o644)
+}
+
+// DaemonFuncs names methods that run for ever as service goroutines; `go x.f()`
+// of one of them becomes rt.GoDaemon.  Only set while a dependency is instrumented.
+var DaemonFuncs = map[string]bool{}
+
+// DiskSeam makes a private copy of the github.com/goblimey/go-tools module (as
+// the module under test resolves it) in which the two packages that stand
+// between the programs and their daily files (dailylogger, switchwriter) are
+// instrumented, so that the simulator owns the disk: locks and the rotation
+// goroutine go through the scheduler, and every file the daily writer opens is
+// handed to rt.WrapFile, where a harness can put a simulated disk in front of
+// it.  The scratch go.mod then replaces the module by the copy (files in the
+// module cache cannot be overlaid, and are not touched).  When the source does
+// not look as expected ok is false and nothing is replaced.
+func DiskSeam(modDir, repoGoMod, out string) (copyDir string, ok bool, err error) {
+	copyDir = filepath.Join(out, "go-tools")
+	const hook = "dw.switchwriter.SwitchTo(logFile)"
+	err = filepath.Walk(modDir, func(p string, info os.FileInfo, err error) error {
+		if err != nil {
+			return err
+		}
+		rel, _ := filepath.Rel(modDir, p)
+		dst := filepath.Join(copyDir, rel)
+		if info.IsDir() {
+			return os.MkdirAll(dst, 0o755)
+		}
+		if strings.HasSuffix(p, "_test.go") || !info.Mode().IsRegular() {
+			return nil
+		}
+		b, err := os.ReadFile(p)
+		if err != nil {
+			return err
+		}
+		return os.WriteFile(dst, b, 0o644)
+	})
+	if err != nil {
+		return "", false, err
+	}
+	wp := filepath.Join(copyDir, "dailylogger", "writer.go")
+	b, rerr := os.ReadFile(wp)
+	if rerr != nil || strings.Count(string(b), hook) != 1 || !strings.Contains(string(b), "go dw.logRotator()") {
+		return "", false, nil
+	}
+	if _, serr := os.Stat(filepath.Join(copyDir, "switchwriter")); serr != nil {
+		return "", false, nil
+	}
+	b = []byte(strings.Replace(string(b), hook, "dw.switchwriter.SwitchTo(vsimWrap(pathname, logFile))", 1))
+	if err := os.WriteFile(wp, b, 0o644); err != nil {
+		return "", false, err
+	}
+	wrap := "package dailylogger\n\nimport (\n\t\"io\"\n\t\"os\"\n\n\t\"verif/vsim/rt\"\n)\n\nfunc vsimWrap(name string, f *os.File) io.Writer { return rt.WrapFile(name, f) }\n"
+	if err := os.WriteFile(filepath.Join(copyDir, "dailylogger", "zz_vsim_wrap.go"), []byte(wrap), 0o644); err != nil {
+		return "", false, err
+	}
+	// instrument the two packages (same timer semantics as the module under test)
+	stage := filepath.Join(out, "dep")
+	for _, pkg := range []string{"dailylogger", "switchwriter"} {
+		os.MkdirAll(filepath.Join(stage, pkg), 0o755)
+		ents, _ := os.ReadDir(filepath.Join(copyDir, pkg))
+		for _, e := range ents {
+			if e.IsDir() || !strings.HasSuffix(e.Name(), ".go") {
+				continue
+			}
+			b, _ := os.ReadFile(filepath.Join(copyDir, pkg, e.Name()))
+			os.WriteFile(filepath.Join(stage, pkg, e.Name()), b, 0o644)
+		}
+	}
+	if b, err := os.ReadFile(repoGoMod); err == nil {
+		for _, line := range strings.Split(string(b), "\n") {
+			if f := strings.Fields(line); len(f) == 2 && f[0] == "go" {
+				os.WriteFile(filepath.Join(stage, "go.mod"), []byte("module dep\n\n"+line+"\n"), 0o644)
+			}
+		}
+	}
+	DaemonFuncs = map[string]bool{"logRotator": true}
+	defer func() { DaemonFuncs = map[string]bool{} }()
+	res, err := Tree(stage, filepath.Join(out, "depout"), nil)
+	if err != nil {
+		return "", false, err
+	}
+	if len(res.Skipped) > 0 {
+		return "", false, nil
+	}
+	for from, to := range res.Overlay {
+		rel, _ := filepath.Rel(stage, from)
+		b, err := os.ReadFile(to)
+		if err != nil {
+			return "", false, err
+		}
+		if err := os.WriteFile(filepath.Join(copyDir, rel), b, 0o644); err != nil {
+			return "", false, err
+		}
+	}
+	return copyDir, true, nil
 }
 
 // Tree instruments every non-test Go file below repo (skipping the directories
